@@ -12,5 +12,6 @@ if ! git apply --3way "$P" 2>/dev/null && ! git apply "$P" 2>/dev/null; then ech
   cd $R/verif && VERIF_DIR=$R/verif ./check.sh "$PROP" "$TIER" > $R/out.txt 2>&1; RC=$?
   echo "rc=$RC"; grep -E "VIOLATION|class=|OK property|KNOWN|batches=|harness|build" $R/out.txt | sed "s#$R##g" | head -8
 fi
+mkdir -p /tmp/iso_replays; cp $R/verif/replays/*.json /tmp/iso_replays/ 2>/dev/null
 git -C /repo worktree remove --force $R/repo; rm -rf $R
 exit $RC
